@@ -438,4 +438,177 @@ theorem killAll_run : ∀ (m d nx : Nat) (resp : List (Nat × Resp)),
       have e2 : nx + 1 + m = nx + (m + 1) := by omega
       rw [h, e1, e2]
 
+/-! ### the shipped worker loop: FIFO invariant and panic accounting (for schedule independence) -/
+
+/-- the shipped worker loop -/
+def shipped : Defects := { panicKillsWorker := true }
+
+/-- job `i` is a panicking job -/
+def isPanicId (ks : List Kind) (i : Nat) : Bool := ks[i]? == some Kind.panic
+
+/-- number of panicking jobs among the first `i` submitted -/
+def panicsBefore (ks : List Kind) (i : Nat) : Nat := (ks.take i).count Kind.panic
+
+theorem countP_range_isPanic (ks : List Kind) : ∀ t, (List.range t).countP (isPanicId ks) = panicsBefore ks t
+  | 0 => by simp [panicsBefore]
+  | t + 1 => by
+    rw [List.range_succ, List.countP_append, countP_range_isPanic ks t, List.countP_singleton]
+    unfold panicsBefore isPanicId
+    rw [List.take_add_one, List.count_append]
+    cases h : ks[t]? with
+    | none => simp
+    | some k => cases k <;> simp
+
+theorem panicsBefore_mono (ks : List Kind) {i j : Nat} (h : i ≤ j) : panicsBefore ks i ≤ panicsBefore ks j :=
+  (List.take_sublist_take_left h).count_le _
+
+theorem panicsBefore_append (ks : List Kind) (k : Kind) {i : Nat} (h : i ≤ ks.length) :
+    panicsBefore (ks ++ [k]) i = panicsBefore ks i := by
+  unfold panicsBefore
+  rw [List.take_append_of_le_length h]
+
+theorem respOf_eq_panic (k : Kind) : (respOf k == Resp.panicAsError) = (k == Kind.panic) := by
+  cases k <;> rfl
+
+/-- among the answers, the panicking jobs are exactly the `panicAsError` answers -/
+theorem resp_panic_count {ks : List Kind} : ∀ (resp : List (Nat × Resp)),
+    (∀ p ∈ resp, ∃ k, ks[p.1]? = some k ∧ p.2 = respOf k) →
+    (resp.map (·.1)).countP (isPanicId ks) = resp.countP (fun p => p.2 == Resp.panicAsError)
+  | [], _ => rfl
+  | p :: rest, h => by
+    have ih := resp_panic_count rest (fun q hq => h q (by simp [hq]))
+    obtain ⟨k, hk, hr⟩ := h p (by simp)
+    simp only [List.map_cons, List.countP_cons, ih]
+    have : isPanicId ks p.1 = (p.2 == Resp.panicAsError) := by
+      unfold isPanicId
+      rw [hk, hr, respOf_eq_panic]
+      cases k <;> rfl
+    rw [this]
+
+/-- Invariant of the shipped loop: the queue holds the youngest jobs in submission order, every dead worker is
+    accounted for by one panic answer, and every job that was ever taken had fewer than `n` panicking jobs before it. -/
+structure InvS (n : Nat) (ks : List Kind) (s : State) : Prop where
+  base : Inv n shipped ks s
+  fifo : ∃ t, t + s.queue.length = s.next ∧ s.queue.map (·.id) = List.range' t s.queue.length ∧
+    ∀ i, i < t → panicsBefore ks i < n
+  dead_eq : s.dead = s.resp.countP (fun p => p.2 == Resp.panicAsError)
+
+theorem invS_init (n : Nat) : InvS n [] (init n) :=
+  ⟨inv_init n shipped, ⟨0, by simp [init], by simp [init], fun i h => absurd h (Nat.not_lt_zero i)⟩, by simp [init]⟩
+
+/-- ids of the jobs already taken (answered or running) are exactly `0 … t-1` -/
+theorem taken_perm {n ks s} (h : Inv n shipped ks s) {t : Nat} (ht : t + s.queue.length = s.next)
+    (hq : s.queue.map (·.id) = List.range' t s.queue.length) :
+    (s.resp.map (·.1) ++ s.busy.map (·.id)).Perm (List.range t) := by
+  have hp := h.perm
+  unfold allIds at hp
+  rw [← List.append_assoc, hq] at hp
+  have hr : List.range s.next = List.range t ++ List.range' t s.queue.length := by
+    rw [← ht, List.range_eq_range', List.range_eq_range']
+    have := @List.range'_append 0 t s.queue.length 1
+    simp only [Nat.one_mul, Nat.zero_add] at this
+    exact this.symm
+  rw [hr] at hp
+  exact (List.perm_append_right_iff _).mp hp
+
+/-- the number of panicking jobs among the taken ones = dead workers + running panicking jobs -/
+theorem panics_taken {n ks s} (h : InvS n ks s) {t : Nat} (ht : t + s.queue.length = s.next)
+    (hq : s.queue.map (·.id) = List.range' t s.queue.length) :
+    panicsBefore ks t = s.dead + (s.busy.map (·.id)).countP (isPanicId ks) := by
+  have hp := taken_perm h.base ht hq
+  rw [← countP_range_isPanic, ← hp.countP_eq, List.countP_append, resp_panic_count s.resp h.base.respKind, h.dead_eq]
+
+theorem invS_submit {n ks s} (k : Kind) (h : InvS n ks s) : InvS n (ks ++ [k]) (submit s k) := by
+  obtain ⟨t, ht, hq, hh⟩ := h.fifo
+  refine ⟨inv_submit k h.base, ⟨t, ?_, ?_, ?_⟩, ?_⟩
+  · simp only [submit, List.length_append, List.length_singleton]; omega
+  · simp only [submit, List.map_append, List.map_cons, List.map_nil, List.length_append, List.length_singleton]
+    rw [List.range'_1_concat, hq]
+    congr 2
+    omega
+  · intro i hi
+    have hle : i ≤ ks.length := by have := h.base.next_eq; omega
+    rw [panicsBefore_append ks k hle]; exact hh i hi
+  · simpa [submit] using h.dead_eq
+
+theorem invS_take {n ks s s'} (h : InvS n ks s) (htk : take s = some s') : InvS n ks s' := by
+  obtain ⟨t, ht, hq, hh⟩ := h.fifo
+  have hbase := inv_take h.base htk
+  have hpt := panics_taken h ht hq
+  have hw := h.base.workers
+  unfold take at htk
+  split at htk
+  · cases htk
+  · rename_i j q hqq
+    split at htk
+    · cases htk
+    · rename_i hidle
+      cases htk
+      rw [hqq] at ht hq
+      simp only [List.map_cons, List.length_cons, List.range'_succ, List.cons.injEq] at ht hq
+      refine ⟨hbase, ⟨t + 1, ?_, ?_, ?_⟩, h.dead_eq⟩
+      · simp only; omega
+      · simpa using hq.2
+      · intro i hi
+        rcases Nat.lt_or_ge i t with hlt | hge
+        · exact hh i hlt
+        · have : i = t := by omega
+          subst this
+          have hle : (s.busy.map (·.id)).countP (isPanicId ks) ≤ s.busy.length := by
+            have := @List.countP_le_length _ (isPanicId ks) (s.busy.map (·.id))
+            simpa using this
+          omega
+
+theorem invS_finish {n ks s s'} (i : Nat) (h : InvS n ks s) (hf : finish shipped s i = some s') : InvS n ks s' := by
+  obtain ⟨t, ht, hq, hh⟩ := h.fifo
+  have hbase := inv_finish i h.base hf
+  unfold finish at hf
+  split at hf
+  · cases hf
+  · rename_i j post hd
+    split at hf
+    · rename_i hc
+      cases hf
+      refine ⟨hbase, ⟨t, ht, hq, hh⟩, ?_⟩
+      have hk : j.kind = Kind.panic := by simpa [shipped] using hc
+      simp only [List.countP_append, List.countP_singleton, hk, respOf]
+      have := h.dead_eq
+      simp only [beq_self_eq_true, if_true]
+      omega
+    · rename_i hc
+      cases hf
+      refine ⟨hbase, ⟨t, ht, hq, hh⟩, ?_⟩
+      have hk : (j.kind == Kind.panic) = false := by simpa [shipped] using hc
+      have hr : (respOf j.kind == Resp.panicAsError) = false := by rw [respOf_eq_panic]; exact hk
+      simp only [List.countP_append, List.countP_singleton, hr]
+      have := h.dead_eq
+      simp only [Bool.false_eq_true, if_false, Nat.add_zero]
+      exact this
+
+theorem invS_step {n ks s s'} (st : Step) (h : InvS n ks s) (hs : step shipped s st = some s') :
+    InvS n (ks ++ submitted [st]) s' := by
+  cases st with
+  | submit k =>
+    simp only [step, Option.some.injEq] at hs
+    subst hs
+    simpa [submitted] using invS_submit k h
+  | take => simpa [submitted] using invS_take h hs
+  | finish i => simpa [submitted] using invS_finish i h hs
+
+theorem invS_run {n} : ∀ (tr : List Step) {ks s s'}, InvS n ks s → run shipped s tr = some s' →
+    InvS n (ks ++ submitted tr) s'
+  | [], ks, s, s', h, hr => by
+    simp only [run, Option.some.injEq] at hr
+    subst hr; simpa [submitted] using h
+  | st :: tr, ks, s, s', h, hr => by
+    simp only [run] at hr
+    split at hr
+    · cases hr
+    · rename_i s1 hs1
+      have := invS_run tr (invS_step st h hs1) hr
+      rw [submitted_cons, ← List.append_assoc]; exact this
+
+theorem invS_reachable {n tr s} (hr : run shipped (init n) tr = some s) : InvS n (submitted tr) s := by
+  simpa using invS_run tr (invS_init n) hr
+
 end AxVerif.Pool
